@@ -94,7 +94,7 @@ def guards():
     add("C17 header-order box map", mc("MC_C17", dict(r17, MapOrder='"header"'), ["ConvertRefines"]), "ConvertRefines")
     add("C18 repaired", mc("MC_C18", dict(MaxFields=3, Parity='"mod2"'), ["ListedOnce", "RowPerField"]), None)
     add("C18 floor-division parity", mc("MC_C18", dict(MaxFields=3, Parity='"floordiv"'), ["RowPerField"]), "RowPerField")
-    r19 = dict(N1=6, N2=4, MaxLev=2, MaxFine=1, OriginMode='"subtract"')
+    r19 = dict(N1=6, N2=4, MaxLev=2, MaxFine=1, OriginMode='"subtract"', MaxQ=1)
     O = {"Origins": "{0,6,-10}"}
     add("C19 repaired", mc("MC_C19", r19, ["PointRefines"], O), None)
     add("C19 origin ignored", mc("MC_C19", dict(r19, OriginMode='"ignore"'), ["PointRefines"], O), "PointRefines")
